@@ -30,6 +30,12 @@ def to_date(x, form='datetime', tz=None):
         if tz is None or t.tzinfo is not None:
             return t.to_pydatetime()
         return t.tz_localize(tz).tz_convert('UTC' if form == 'aware_utc' else 'Asia/Kolkata')
+    if form == 'aware_zoneinfo':
+        # a plain python datetime carrying a standard-library zone (zoneinfo) - the grid's own zone
+        if tz is None or t.tzinfo is not None:
+            return t.to_pydatetime()
+        import zoneinfo
+        return t.tz_localize(tz).to_pydatetime().astimezone(zoneinfo.ZoneInfo(tz))
     if form == 'timestamp':
         return t
     if form == 'date' and t == t.normalize() and t.tzinfo is None:
@@ -39,7 +45,7 @@ def to_date(x, form='datetime', tz=None):
 
 def conv_interval(d, form='datetime', container='list', tz=None):
     out = {}
-    if form in ('aware_utc', 'aware_other'):
+    if form in ('aware_utc', 'aware_other', 'aware_zoneinfo'):
         container = 'list'
     for k, v in d.items():
         if k in ('start', 'end'):
